@@ -22,6 +22,29 @@ def algebra_ops():
     return ops
 
 
+def alias_ops():
+    """every two-key set command with source = destination (and destination among the operands), on sets
+    of 0, 1, 2 members, followed by the observable state: the key is its own destination"""
+    from gen_api import hx
+    ops = ["open a mem"]
+    i = 0
+    for n in (0, 1, 2):
+        members = [b"a", b"b"][:n]
+        for cmd in ("SMove-member", "SMove-nonmember", "SUnionStore", "SInterStore", "SDiffStore", "SUnionStore2", "SInterStore2", "SDiffStore2"):
+            for m in (members or [b"a"]):
+                i += 1
+                k, o = hx(b"k%d" % i), hx(b"o%d" % i)
+                if members:
+                    ops.append(f"api SAdd {k} " + " ".join(hx(x) for x in members))
+                ops.append(f"api SAdd {o} {hx(b'a')} {hx(b'z')}")
+                ops.append({"SMove-member": f"api SMove {k} {k} {hx(m)}", "SMove-nonmember": f"api SMove {k} {k} {hx(b'zz')}",
+                            "SUnionStore": f"api SUnionStore {k} {k}", "SInterStore": f"api SInterStore {k} {k}", "SDiffStore": f"api SDiffStore {k} {k}",
+                            "SUnionStore2": f"api SUnionStore {k} {o} {k}", "SInterStore2": f"api SInterStore {k} {k} {o}", "SDiffStore2": f"api SDiffStore {k} {o} {k}"}[cmd])
+                ops += [f"api SMembers {k}", f"api SCard {k}", f"api Exists {k}", f"api Type {k}", f"api SIsMember {k} {hx(m)}"]
+    ops.append("dump")
+    return ops
+
+
 def run(ctx, proofs_ok):
     apicheck.run_streams(ctx, [
         {"label": "random hash/set command streams (embedded API, memory backend)", "fams": ["hash", "set", "hash", "set", "key"],
@@ -31,4 +54,5 @@ def run(ctx, proofs_ok):
          "events": {"gc": 0.08, "flush": 0.03, "reopen": 0.02, "sleep": 0.03}},
         {"label": "hash/set streams on Pebble with eviction and reopen", "fams": ["hash", "set", "key"],
          "n": (600, 3000), "count": (1, 6), "backend": "pebble", "events": {"gc": 0.08, "flush": 0.03, "reopen": 0.02}},
-    ], extra=[("exhaustive set algebra over missing / emptied / repeated / wrong-typed operands", algebra_ops(), False)])
+    ], extra=[("exhaustive set algebra over missing / emptied / repeated / wrong-typed operands", algebra_ops(), False),
+              ("source = destination: SMOVE k k m and *STORE onto an operand, on sets of 0, 1, 2 members", alias_ops(), False)])
